@@ -166,6 +166,18 @@ def slot_access_rule(facts, rep, R1, wr, ww):
             base = strip_refs(base)
             while base[0] == "deref":
                 base = strip_refs(base[1])
+            # `view.get(a..).unwrap_or(&[])`, `view.get(a..b)?`: the same view as `&view[a..]` where it exists
+            if base[0] == "call" and base[1].rsplit("::", 1)[-1] in ("unwrap_or", "unwrap_or_default", "unwrap", "expect", "unwrap_or_else") and base[2]:
+                inner_ = strip_refs(base[2][0])
+                if inner_[0] == "call" and inner_[1].endswith("<impl [T]>::get") and len(inner_[2]) == 2 and strip_refs(inner_[2][1])[0] == "agg":
+                    base = ("call", "ops::Index::index", (inner_[2][0], inner_[2][1]))
+                else:
+                    return None
+            if base[0] in ("field", "downcast") and any(x[0] == "call" and x[1].endswith("<impl [T]>::get") for x in walk(base)):
+                g_ = [x for x in walk(base) if x[0] == "call" and x[1].endswith("<impl [T]>::get") and len(x[2]) == 2 and strip_refs(x[2][1])[0] == "agg"]
+                if len(g_) != 1:
+                    return None
+                base = ("call", "ops::Index::index", (g_[0][2][0], g_[0][2][1]))
             if base[0] == "call" and "ops::Index" in base[1] and len(base[2]) == 2 and strip_refs(base[2][1])[0] == "agg":
                 rg = strip_refs(base[2][1])
                 kind = (rg[2] or "").rsplit("::", 1)[-1]
@@ -183,6 +195,9 @@ def slot_access_rule(facts, rep, R1, wr, ww):
                     if a is None:
                         return None
                     off = ({k: off[0].get(k, 0) + a[0].get(k, 0) for k in set(off[0]) | set(a[0])}, off[1] + a[1])
+                    # a cap found on an outer view counts from this view's start
+                    if cap is not None:
+                        cap = cap + a[1] if not a[0] else None
                 if en is not None:
                     from binser import const_fold
                     e_ = strip_refs(en)
@@ -200,6 +215,8 @@ def slot_access_rule(facts, rep, R1, wr, ww):
             if base[0] == "call" and base[1].rsplit("::", 1)[-1] in ("deref", "as_slice", "as_ref", "borrow", "iter") and base[2]:
                 base = base[2][0]
                 continue
+            if base[0] == "call":
+                return None          # a view produced some other way: where it starts is not known
             break
         return off, cap, base
     found = []
@@ -215,9 +232,10 @@ def slot_access_rule(facts, rep, R1, wr, ww):
         a = affine(mark(idx_t), None)
         if a is None or not a[0]:
             continue
-        bounds = sorted((atom_bound(k), v) for k, v in a[0].items())
+        bounds = [(atom_bound(k), v) for k, v in a[0].items()]
         if any(b_ is None for b_, v in bounds):
             continue
+        bounds = sorted(bounds)
         pl = peel(wr.term_of_operand(t["args"][0]))
         if pl is None:
             continue
@@ -552,6 +570,10 @@ def run(facts, rep, ctx):
                 first = evs[i:i + 2]
     if first == ["read_label", "read_u32"]:
         rep.ok(R1, {"reader_set_header": "label at the cursor, then the main flags"})
+    elif first is None and any((callee_names(t)[1] or "").rsplit("::", 1)[-1] in ("all_labels", "get_labels") and "BinArchive" in (callee_names(t)[1] or "") for bb, t in rd.calls()):
+        # no label is looked up at the set's own address, and the archive's whole label list is fetched instead:
+        # the sets get their names by position in that list
+        rep.violation(R1, rd.name, "label-by-position", "the reader never looks a label up at a set's own position; it fetches the list of all labels of the archive and hands them to the sets in order: a set without a label shifts every later name to the wrong set", rw)
     elif first is None:
         rep.inconc(R1, "reader: the label read that starts a set was not found")
     else:
